@@ -1056,3 +1056,68 @@ def _conjuncts(c):
     if s is not None and s.get("k") == "bin" and s.get("op") == "&&":
         return _conjuncts(s["ch"][0]) + _conjuncts(s["ch"][1])
     return [c]
+
+
+def check_sizeof_agreement(chk, prog, unit, rule="S1"):
+    """A byte count written `sizeof(T) * n` for a block of elements agrees with the element type of the pointer it is used with:
+    memset / memcpy / memmove on `table + k`, and `table = realloc(table, sizeof(T) * n)`.  A count computed with the size of
+    another type clears / copies / allocates only part of the elements - here: leaves the new half of a doubled table without
+    its NULL end marker, so the scan for the first NULL name runs off into uninitialised entries."""
+    from .cap import pointee_size
+    n = 0
+    recs = unit.records
+
+    def sizeof_factor(e):
+        e = X.strip(e)
+        if e is None:
+            return None
+        if e.get("k") == "sizeof" and e.get("cv") is not None:
+            return e
+        if e.get("k") == "bin" and e.get("op") == "*":
+            return sizeof_factor(e["ch"][0]) or sizeof_factor(e["ch"][1])
+        return None
+
+    def typed_ptr(e):
+        """the expression under the casts to void * / char *: its static type is the element pointer"""
+        while e is not None and e.get("k") in ("paren", "icast", "cast") and e.get("ch"):
+            inner = e["ch"][0]
+            if inner is None or not inner.get("tp"):
+                break
+            e = inner
+        return e
+    for f in unit.functions.values():
+        if f.body is None:
+            continue
+        for c in X.calls_in(f.body):
+            cn = X.callee_name(c) or ""
+            args = c["ch"][1:]
+            ptrs, size = [], None
+            if re.search(r"(^|_)mem(set|cpy|move)(_chk)?$", cn) and len(args) >= 3:
+                ptrs, size = ([args[0]] if "set" in cn else [args[0], args[1]]), args[2]
+            elif re.search(r"(^|_)realloc$", cn) and len(args) >= 2:
+                size = args[-1]
+                par = f.parent.get(c["i"])
+                while par is not None and par.get("k") in ("paren", "icast", "cast", "cond"):
+                    par = f.parent.get(par["i"])
+                if par is not None and par.get("k") == "assign":
+                    ptrs = [par["ch"][0]]
+            if size is None:
+                continue
+            so = sizeof_factor(size)
+            if so is None:
+                continue
+            for p_ in ptrs:
+                tp_ = typed_ptr(p_)
+                if tp_ is None:
+                    continue
+                ps = pointee_size(tp_, recs)
+                ts_ = (tp_.get("tc") or tp_.get("t") or "")
+                if ps <= 1 or re.search(r"\bvoid\b", ts_):
+                    continue
+                n += 1
+                chk.ob(rule, f.name, "element-size:" + canon(f, c)[:40], so["cv"] == ps, loc=f.loc(c),
+                       detail="%s: the byte count of %s is computed with sizeof(%s) = %d, but the elements of %s are %d bytes: only part of "
+                              "the block is %s" % (f.name, cn, so.get("of", "?"), so["cv"], X.render(tp_)[:30], ps,
+                                                   "cleared (the rest keeps whatever the allocator left there)" if "set" in cn else "covered"),
+                       proof="sizeof(%s) == element size %d" % (so.get("of", "?"), ps))
+    return n
